@@ -102,6 +102,7 @@ class SqlFx:
         self.w = world
         self.repo = repo
         self.sites = {}      # fid -> list of (bb, kind, term, sqltext)
+        self._du = {}
         self.fn_sql = {}
         self._maywrite = None
         self._maystmt = None
@@ -128,6 +129,12 @@ class SqlFx:
             if p in EXEC or p in QUERY or p in PREP:
                 lits = string_literals(self.call_text(f, t))
                 lits = [l for l in lits if re.search(r"[A-Z]{4,}", l)]
+                if not lits and p.startswith("rusqlite::Statement") and t.args:
+                    # a prepared statement: the SQL is at the prepare call it came from
+                    pt = self._prepare_of(f, t.args[0])
+                    if pt is not None:
+                        lits = [l for l in string_literals(self.call_text(f, pt))
+                                if re.search(r"[A-Z]{4,}", l)]
                 if not lits:
                     if fsql is None:
                         fsql = [l for l in string_literals(zf.fn_source(self.repo, f))
@@ -160,6 +167,33 @@ class SqlFx:
             elif p in ROLLBACK:
                 out.append((bb, "ROLLBACK", t, ""))
         return out
+
+    def _prepare_of(self, f, op, depth=0):
+        """the prepare/prepare_cached call terminator a statement operand comes from"""
+        import defuse
+        du = self._du.get(f.id)
+        if du is None:
+            du = self._du[f.id] = defuse.DefUse(f.body)
+        seen = 0
+        while op is not None and op.kind in ("copy", "move") and seen < 16:
+            seen += 1
+            d = du.single(op.place.local)
+            if d is None:
+                return None
+            kind, _bi, x = d
+            if kind == "call":
+                if x.callee.indirect is None and x.callee.target_p() in PREP:
+                    return x
+                op = x.args[0] if x.args else None
+                continue
+            rv = x.rv
+            if rv.kind == "use":
+                op = rv.ops[0]
+            elif rv.kind == "ref":
+                op = zf.Op("copy", rv.place)
+            else:
+                return None
+        return None
 
     # ---- witness
     def has_witness(self, f):
